@@ -242,6 +242,9 @@ func runEvents(rc *core.RunCtx) {
 		if mixed != "same-form" {
 			simrt.Probe("equal-pid-in-distinct-objects")
 		}
+		if forms["unsub-3"] {
+			simrt.Probe("unsubscribe-same-id-other-address")
+		}
 	}
 	rc.Nontrivial = true
 }
@@ -267,7 +270,7 @@ func init() {
 		Run: runLifecycle(lcParams{focus: "C12", crashes: true, lifeCrashes: true, exceed: true}),
 		Doc: "the budget scenario of C06 with a monitor (an actor driven beyond its restart budget, also one that never gets through Initialized/Started); oracle: the lifecycle events of 'lifecycle-events', in particular one ActorStoppedEvent for every process that ended"})
 	core.Register(&core.Profile{Property: "C12", Name: "eventstream", Weight: 4, Cfg: cfgEngine, Run: runEvents,
-		Doc: "one real Engine; 1-3 subscriber actors, 1-3 tasks running subscribe/unsubscribe/broadcast scripts where the subscriber PID is passed as the original pointer, a clone or NewPID(address,id); each subscriber is owned by one task so the owner's broadcasts are program-ordered with its subscription changes; a final broadcast after quiescence; oracle: owner broadcasts delivered exactly once iff subscribed at that point, nothing after unsubscribe (by address and id), no duplicates after double subscription, per-broadcaster order, concurrent broadcasts at most once"})
+		Doc: "one real Engine; 1-3 subscriber actors, 1-3 tasks running subscribe/unsubscribe/broadcast scripts where the subscriber PID is passed as the original pointer, a clone or NewPID(address,id), and some unsubscribes name the same id on another address (a different subscriber: must change nothing); each subscriber is owned by one task so the owner's broadcasts are program-ordered with its subscription changes; a final broadcast after quiescence; oracle: owner broadcasts delivered exactly once iff subscribed at that point, nothing after unsubscribe (by address and id), no duplicates after double subscription, per-broadcaster order, concurrent broadcasts at most once"})
 	core.Register(&core.Profile{Property: "C12", Name: "lifecycle-events", Weight: 2, Cfg: cfgEngine, Run: runLifecycleEvents,
 		Doc: "the lifecycle scenario of C04 with a monitor; oracle: one ActorInitializedEvent/ActorStartedEvent per handled Initialized/Started, one ActorStoppedEvent per stopped process, one ActorRestartedEvent per restart, one DeadLetterEvent per undeliverable send"})
 }
